@@ -71,7 +71,7 @@ Qed.
 
 Lemma Rok_same i j : same_but_home i j -> Rok j -> Rok i.
 Proof.
-  intros [H1 [H2 [H3 [H4 [H5 [H6 [H7 [H8 H9]]]]]]]]. apply Rok_core. unfold same_core; auto 10.
+  intros [H1 [H2 [H3 [H4 [H5 [H6 [H7 [H8 [H9 _]]]]]]]]]. apply Rok_core. unfold same_core; auto 10.
 Qed.
 
 Lemma Rok_running i : Rok i -> Rok (with_running i).
@@ -100,7 +100,8 @@ Lemma Rok_finish i p f o : Rok i -> phase_live (r_phase i) = true -> Rok (finish
 Proof.
   intros R Hl. rok_start. unfold finish_rec.
   destruct (r_phase i) eqn:Ep; try discriminate Hl; cbn [phase_up].
-  all: destruct o; try destruct f; simp_state; rewrite ?Ep.
+  all: destruct o; try destruct f; simp_state; rewrite ?Ep;
+    try match goal with |- context[if ?c then _ else _] => destruct c end; simp_state; rewrite ?Ep.
   all: (split; [|split; [|split]]); auto; try discriminate.
   all: try (intros _; left; discriminate).
   all: try (intros _; right; reflexivity).
@@ -202,7 +203,8 @@ Proof.
     + apply (guard_ok_same_phases s); auto. intros r'. unfold live. rewrite Hr.
       upd_cases r'; [|left; reflexivity]. right. split; [exact Hl|].
       unfold finish_rec. destruct (r_phase (run_ s (p_owner (pay s p)))) eqn:Eph; try discriminate Hl;
-        destruct o; try destruct (p_flav (pay s p)); simp_state; rewrite ?Eph; reflexivity.
+        destruct o; try destruct (p_flav (pay s p)); simp_state; rewrite ?Eph;
+        try match goal with |- context[if ?c then _ else _] => destruct c end; simp_state; rewrite ?Eph; reflexivity.
 Qed.
 
 (* ====================================================================================== *)
@@ -384,6 +386,7 @@ Proof.
     destruct o as [|v|x|x|]; simp_state; auto.
     + right. exists p, (ORetVal v). repeat split; auto. right. eauto.
     + right. exists p, (ORaiseExc x). repeat split; auto. left. eauto.
+    + match goal with |- context[if ?c then _ else _] => destruct c end; simp_state; auto.
     + destruct (p_flav (pay s p)); simp_state; auto.
 Qed.
 
@@ -451,13 +454,14 @@ Proof.
   - destruct (inv_Sigint _ _ H) as [_ Hr]. destruct (guard s) eqn:Eg; rewrite Hr; auto. upd_cases r; auto.
     all: try (simp_state; repeat split; auto).
   - destruct (inv_Start_run _ _ _ _ _ _ _ _ H) as [_ [_ Hs]].
-    destruct (Hs r) as [_ [_ [_ [_ [_ [_ [H7 [H8 H9]]]]]]]]. rewrite H7, H8, H9. auto.
+    destruct (Hs r) as [_ [_ [_ [_ [_ [_ [H7 [H8 [H9 _]]]]]]]]]. rewrite H7, H8, H9. auto.
   - destruct (inv_Finish _ _ _ _ H) as [Hst [_ [_ [_ [_ [_ [_ [[Hr _]|[Hx [Hl Hr]]]]]]]]]]; rewrite Hr; auto.
     upd_cases r; auto. unfold finish_rec.
     destruct o; simp_state; auto.
     + repeat split; auto. intros ->. apply orb_true_r.
     + repeat split; auto. intros ->. apply orb_true_r.
-    + repeat split; auto. intros ->. apply orb_true_r.
+    + match goal with |- context[if ?c then _ else _] => destruct c end; simp_state;
+        (repeat split; auto; intros ->; apply orb_true_r).
     + destruct (p_flav (pay s p)); simp_state; repeat split; auto; intros _; right; right; right; eauto.
 Qed.
 
@@ -512,6 +516,7 @@ Proof.
   - congruence.
   - rewrite Hu in X. discriminate.
   - rewrite Hr, upd_same. unfold finish_rec. rewrite Hu. destruct o; try discriminate Hf; cbn; auto.
+    match goal with |- context[if ?c then _ else _] => destruct c end; cbn; auto.
 Qed.
 
 (* ... and from then on the run cannot end silently: it ends by raising, unless a SIGINT arrives *)
@@ -597,15 +602,16 @@ Qed.
    payload of r is still running or still cleaning up *)
 Lemma C02_settled_at_end tr s r o s' :
   run init tr = Some s -> step s (AcceptEnd r o) = Some s' -> o <> AExclusive ->
+  r_loopkill (run_ s r) = false ->
   forall p, p_owner (pay s p) = r -> coroutine (p_flav (pay s p)) = true -> background s p ->
     p_st (pay s p) <> PRun /\ p_st (pay s p) <> PCanc.
 Proof.
-  intros H E Ho p Hp Hc Hb. pose proof (Inv_run _ _ H) as I.
+  intros H E Ho Hk p Hp Hc Hb. pose proof (Inv_run _ _ H) as I.
   destruct (inv_AcceptEnd _ _ _ _ E) as [Ha [Hs _]].
   assert (Hcl : phase_closing (r_phase (run_ s r)) = true).
   { unfold accept_end_ok in Ha. destruct (r_phase (run_ s r)); try discriminate Ha; [reflexivity|].
     destruct o; try discriminate Ha. congruence. }
-  specialize (Hs Hcl).
+  specialize (Hs Hcl Hk).
   destruct (in_dec Nat.eq_dec p (pids s)) as [i|n].
   - pose proof (forallb_settled _ _ Hs p i Hp) as Hu. unfold unsettled in Hu. unfold background in Hb.
     rewrite Hc, Hb in Hu. destruct (p_st (pay s p)); cbn in Hu; try discriminate; split; discriminate.
@@ -625,24 +631,88 @@ Ltac dphase :=
   | [H : context[r_phase (run_ ?a ?b)] |- _] => destruct (r_phase (run_ a b)) eqn:?
   end.
 
-(* no coroutine payload takes a further step once the run call of its runner has ended *)
+(* no coroutine payload takes a further step once the run call of its runner has ended
+   (except the orphaned trio payloads of the loop-killing SystemExit finding) *)
 Lemma no_activity_after_end s e s' p :
   step s e = Some s' -> activity e = Some p -> coroutine (p_flav (pay s' p)) = true ->
-  phase_ended (r_phase (run_ s (p_owner (pay s' p)))) = false.
+  phase_ended (r_phase (run_ s (p_owner (pay s' p)))) = false
+  \/ r_loopkill (run_ s (p_owner (pay s' p))) = true.
 Proof.
-  intros H Ha Hc. destruct e; cbn in Ha; try discriminate Ha; injection Ha as ->.
+  intros H Ha Hc.
+  assert (G : forall ri f, may_act ri f = true \/ may_start ri f = true \/ may_clean ri f = true ->
+              phase_ended (r_phase ri) = false \/ r_loopkill ri = true).
+  { intros ri f. unfold may_act, may_start, may_clean, orphaned_trio.
+    destruct (r_phase ri); cbn; destruct (r_loopkill ri); cbn; auto; intros [X|[X|X]]; discriminate. }
+  destruct e; cbn in Ha; try discriminate Ha; injection Ha as ->.
   - destruct (inv_Start_pay _ _ _ _ _ _ _ _ H) as [_ [_ [_ [r [Hl [_ [_ [_ Hp]]]]]]]].
-    rewrite Hp, upd_same. simp_state. destruct (r_phase (run_ s r)); cbn in *; try discriminate; reflexivity.
-  - step_inv H. apply andb_prop in E0. destruct E0 as [_ E0]. rewrite Hc in E0. cbn in E0.
-    apply negb_true_iff in E0. exact E0.
-  - step_inv H; simp_state. rewrite Hc in E1. cbn in E1. apply orb_false_elim in E1. tauto.
-  - destruct (inv_Finish _ _ _ _ H) as [_ [_ [Hp [_ [He _]]]]]. rewrite Hp, upd_same in *. simp_state. auto.
+    rewrite Hp, upd_same. simp_state. eapply G; eauto.
+  - step_inv H. apply andb_prop in E0. destruct E0 as [_ E0]. rewrite Hc in E0. cbn in E0. eapply G; eauto.
+  - step_inv H; simp_state. rewrite Hc in E1. cbn in E1. apply orb_false_elim in E1. destruct E1 as [_ E1].
+    apply negb_false_iff in E1. eapply G; eauto.
+  - destruct (inv_Finish _ _ _ _ H) as [_ [_ [Hp [_ [He _]]]]]. rewrite Hp, upd_same in *. simp_state.
+    eapply G; eauto.
   - step_inv H; simp_state. rewrite upd_same in *. simp_state.
-    apply andb_prop in E0. destruct E0 as [E0 _]. apply andb_prop in E0. destruct E0 as [_ E0].
-    dphase; cbn in *; try discriminate; reflexivity.
-  - step_inv H; simp_state. dphase; cbn in *; try discriminate; reflexivity.
-  - step_inv H; simp_state. rewrite upd_same in *. simp_state.
-    dphase; cbn in *; try discriminate; reflexivity.
+    apply andb_prop in E0. destruct E0 as [E0 _]. apply andb_prop in E0. destruct E0 as [_ E0]. eapply G; eauto.
+  - step_inv H; simp_state. eapply G; eauto.
+  - step_inv H; simp_state. rewrite upd_same in *. simp_state. eapply G; eauto.
+Qed.
+
+(* the loop-kill flag can only be set while the runner is live *)
+Lemma loopkill_perm_ended s e s' r :
+  step s e = Some s' -> phase_ended (r_phase (run_ s r)) = true ->
+  r_loopkill (run_ s' r) = r_loopkill (run_ s r).
+Proof.
+  intros H He. destruct (pay_only e) eqn:Ep.
+  { destruct (frame_runners _ _ _ Ep H) as [Hr _]. rewrite Hr. reflexivity. }
+  destruct e; cbn in Ep; try discriminate Ep.
+  - destruct (inv_AcceptCall _ _ _ H) as [Hi [[[_ [_ [Hr _]]]|[g [_ [_ [Hr _]]]]] _]]; rewrite Hr;
+      upd_keep r; auto.
+  - destruct (inv_AcceptEnd _ _ _ _ H) as [Ha [_ [_ Hr]]]. rewrite Hr. upd_keep r; auto.
+  - destruct (inv_RunningSet _ _ _ H) as [_ [Hr _]]. rewrite Hr. upd_keep r; reflexivity.
+  - destruct (inv_ShutdownCall _ _ _ _ H) as [_ [_ Hr]]. rewrite Hr. upd_keep r; auto.
+  - destruct (inv_ShutdownEnd _ _ _ _ H) as [_ [_ [_ Hr]]]. rewrite Hr. upd_keep r; reflexivity.
+  - destruct (inv_Sigint _ _ H) as [_ Hr]. destruct (guard s); rewrite Hr; auto. upd_keep r; auto.
+  - destruct (inv_Start_run _ _ _ _ _ _ _ _ H) as [_ [_ Hs]]. apply Hs.
+  - destruct (inv_Finish _ _ _ _ H) as [_ [_ [_ [_ [_ [_ [_ [[Hr _]|[_ [Hl Hr]]]]]]]]]]; rewrite Hr; auto.
+    upd_keep r; auto. destruct (r_phase (run_ s (p_owner (pay s p)))); cbn in *; discriminate.
+Qed.
+
+Lemma loopkill_only_by_systemexit s e s' r :
+  step s e = Some s' -> r_loopkill (run_ s r) = false -> r_loopkill (run_ s' r) = true ->
+  exists p, e = Finish p (ORaiseBase sysexit_exc) /\ p_flav (pay s p) <> Trio /\ background s p.
+Proof.
+  intros H H0 H1. destruct (pay_only e) eqn:Ep.
+  { destruct (frame_runners _ _ _ Ep H) as [Hr _]. rewrite Hr in H1. congruence. }
+  destruct e; cbn in Ep; try discriminate Ep.
+  - destruct (inv_AcceptCall _ _ _ H) as [Hi [[[_ [_ [Hr _]]]|[g [_ [_ [Hr _]]]]] _]]; rewrite Hr in H1;
+      upd_keep r; simp_state; congruence.
+  - destruct (inv_AcceptEnd _ _ _ _ H) as [Ha [_ [_ Hr]]]. rewrite Hr in H1. upd_keep r; simp_state; congruence.
+  - destruct (inv_RunningSet _ _ _ H) as [_ [Hr _]]. rewrite Hr in H1. upd_keep r; simp_state; congruence.
+  - destruct (inv_ShutdownCall _ _ _ _ H) as [_ [_ Hr]]. rewrite Hr in H1. upd_keep r; simp_state; congruence.
+  - destruct (inv_ShutdownEnd _ _ _ _ H) as [_ [_ [_ Hr]]]. rewrite Hr in H1. upd_keep r; simp_state; congruence.
+  - destruct (inv_Sigint _ _ H) as [_ Hr]. destruct (guard s); rewrite Hr in H1; try congruence.
+    upd_keep r; simp_state; congruence.
+  - destruct (inv_Start_run _ _ _ _ _ _ _ _ H) as [_ [_ Hs]].
+    destruct (Hs r) as [_ [_ [_ [_ [_ [_ [_ [_ [_ X]]]]]]]]]. congruence.
+  - destruct (inv_Finish _ _ _ _ H) as [_ [_ [_ [_ [_ [_ [_ [[Hr _]|[Hx [Hl Hr]]]]]]]]]]; rewrite Hr in H1; [congruence|].
+    upd_keep r; [|congruence]. unfold finish_rec in H1.
+    destruct o as [|v|x|x|]; simp_state; try congruence.
+    + destruct ((x =? sysexit_exc) && negb (flav_eqb (p_flav (pay s p)) Trio)) eqn:Ec; simp_state; [|congruence].
+      apply andb_prop in Ec. destruct Ec as [E1 E2]. apply Nat.eqb_eq in E1. subst x.
+      exists p. split; [reflexivity|]. split; [|exact Hx].
+      intros Ht. rewrite Ht in E2. discriminate E2.
+    + destruct (p_flav (pay s p)); simp_state; congruence.
+Qed.
+
+Lemma loopkill_perm_run tr : forall s s' r o,
+  run s tr = Some s' -> r_phase (run_ s r) = Ended o -> r_loopkill (run_ s' r) = r_loopkill (run_ s r).
+Proof.
+  induction tr as [|e tr IH]; intros s s' r o H He; cbn [run] in H.
+  - injection H as <-. reflexivity.
+  - destruct (step s e) eqn:E; [|discriminate].
+    assert (Hend : phase_ended (r_phase (run_ s r)) = true) by (rewrite He; reflexivity).
+    rewrite (IH _ _ r o H); [apply (loopkill_perm_ended _ _ _ r E Hend)|].
+    rewrite (ended_perm _ _ _ r E Hend). exact He.
 Qed.
 
 Lemma owner_perm_run tr : forall s s' p,
@@ -657,17 +727,20 @@ Proof.
 Qed.
 
 Lemma C02_no_step_after_end tr1 r o tr2 e s1 s2 s3 p :
-  run init (tr1 ++ [AcceptEnd r o]) = Some s1 ->
+  run init (tr1 ++ [AcceptEnd r o]) = Some s1 -> r_loopkill (run_ s1 r) = false ->
   run s1 tr2 = Some s2 -> step s2 e = Some s3 ->
   activity e = Some p -> coroutine (p_flav (pay s3 p)) = true -> p_owner (pay s3 p) = r -> False.
 Proof.
-  intros H1 H2 H3 Ha Hc Ho.
+  intros H1 Hk H2 H3 Ha Hc Ho.
   assert (He : r_phase (run_ s1 r) = Ended o).
   { rewrite run_app in H1. destruct (run init tr1) as [s0|]; [|discriminate]. cbn [run] in H1.
     destruct (step s0 (AcceptEnd r o)) eqn:E; [|discriminate]. injection H1 as <-.
     destruct (inv_AcceptEnd _ _ _ _ E) as [_ [_ [_ Hr]]]. rewrite Hr, upd_same. reflexivity. }
   pose proof (ended_perm_run _ _ _ _ _ H2 He) as He2.
-  pose proof (no_activity_after_end _ _ _ _ H3 Ha Hc) as Hn. rewrite Ho, He2 in Hn. discriminate.
+  pose proof (loopkill_perm_run _ _ _ _ _ H2 He) as Hk2.
+  destruct (no_activity_after_end _ _ _ _ H3 Ha Hc) as [Hn|Hn]; rewrite Ho in Hn.
+  - rewrite He2 in Hn. discriminate.
+  - congruence.
 Qed.
 
 (* cancellation before cleanup: the ghost counters of a payload in its terminal cleanup state *)
@@ -1014,6 +1087,7 @@ Proof.
     upd_keep r'; auto. destruct (R (p_owner (pay s p))) as [S1 S2]. unfold Sok, finish_rec.
     destruct (r_phase (run_ s (p_owner (pay s p)))) eqn:Eq; cbn in Hl; try discriminate Hl;
       destruct o; try destruct (p_flav (pay s p)); simp_state; rewrite ?Eq; cbn [phase_up];
+      try match goal with |- context[if ?c then _ else _] => destruct c end; simp_state; rewrite ?Eq; cbn [phase_up];
       (split; [intros X; try (destruct (S1 X)); split; (discriminate || congruence)|
                intros X; destruct (S2 X); split; [assumption|(discriminate || congruence)]]).
 Qed.
@@ -1040,4 +1114,215 @@ Proof.
   - destruct (all_Sok_run _ _ H r) as [S1 S2]. destruct (S2 Hs) as [Hrun Hup]. destruct (S1 Hrun) as [A B].
     destruct (r_phase (run_ s r)) eqn:Ep; try congruence; eauto.
     exfalso. rewrite (owed_closing _ _ Hin) in Hq; [discriminate|]. left. rewrite Ep. reflexivity.
+Qed.
+
+(* ====================================================================================== *)
+(* 13. C11: one home (thread, loop) per coroutine flavour and runner; threads elsewhere    *)
+(* ====================================================================================== *)
+Definition home_ok (s : rt) : Prop :=
+  forall p, started (p_st (pay s p)) = true -> coroutine (p_flav (pay s p)) = true ->
+    home (run_ s (p_owner (pay s p))) (p_flav (pay s p)) = Some (p_tid (pay s p), p_loop (pay s p)).
+
+(* homes are never changed once set *)
+Lemma home_perm s e s' r f h :
+  step s e = Some s' -> home (run_ s r) f = Some h -> home (run_ s' r) f = Some h.
+Proof.
+  intros H Hh. destruct (pay_only e) eqn:Ep.
+  { destruct (frame_runners _ _ _ Ep H) as [Hr _]. rewrite Hr. exact Hh. }
+  destruct e; cbn in Ep; try discriminate Ep.
+  - destruct (inv_AcceptCall _ _ _ H) as [Hi [[[_ [_ [Hr _]]]|[g [_ [_ [Hr _]]]]] _]]; rewrite Hr;
+      upd_keep r; auto; destruct f; exact Hh.
+  - destruct (inv_AcceptEnd _ _ _ _ H) as [Ha [_ [_ Hr]]]. rewrite Hr. upd_keep r; auto; destruct f; exact Hh.
+  - destruct (inv_RunningSet _ _ _ H) as [_ [Hr _]]. rewrite Hr. upd_keep r; auto; destruct f; exact Hh.
+  - destruct (inv_ShutdownCall _ _ _ _ H) as [_ [_ Hr]]. rewrite Hr. upd_keep r; auto; destruct f; exact Hh.
+  - destruct (inv_ShutdownEnd _ _ _ _ H) as [_ [_ [_ Hr]]]. rewrite Hr. upd_keep r; auto; destruct f; exact Hh.
+  - destruct (inv_Sigint _ _ H) as [_ Hr]. destruct (guard s); rewrite Hr; auto. upd_keep r; auto; destruct f; exact Hh.
+  - step_inv H; simp_state; auto.
+    all: try (upd_keep r; auto).
+    all: try (destruct f, f0; cbn in *; congruence).
+  - destruct (inv_Finish _ _ _ _ H) as [_ [_ [_ [_ [_ [_ [_ [[Hr _]|[_ [Hl Hr]]]]]]]]]]; rewrite Hr; auto.
+    upd_keep r; auto; unfold finish_rec; destruct o; try destruct (p_flav (pay s p));
+      try match goal with |- context[if ?c then _ else _] => destruct c end; destruct f; exact Hh.
+Qed.
+
+Lemma started_only_by_start s e s' p :
+  step s e = Some s' -> started (p_st (pay s p)) = false -> started (p_st (pay s' p)) = true ->
+  exists f tid loop other ok, e = Start p f tid loop other ok.
+Proof.
+  intros H Eold Hs. step_inv H; simp_state; try congruence.
+  all: try (upd_keep p; simp_state; try congruence; try (rw_all; cbn in *; congruence); eauto 10; fail).
+  all: try (destruct (flush_st s r p) as [[Hq [_ Hf]]|Hf]; rewrite Hf in *; simp_state; try congruence;
+            cbn in Hs; discriminate Hs).
+  all: try (upd_keep p; simp_state; try congruence; destruct (r_phase (run_ s r)); cbn in Hs; discriminate Hs).
+Qed.
+
+Lemma home_ok_step s e s' : home_ok s -> step s e = Some s' -> home_ok s'.
+Proof.
+  intros I H p Hs Hc.
+  destruct (started (p_st (pay s p))) eqn:Eold.
+  - (* already started: identity data and homes are permanent *)
+    destruct (started_perm _ _ _ _ H Eold) as [_ [A [B [_ [C D]]]]]. rewrite A, B, C, D in *.
+    eapply home_perm; [exact H|]. apply I; auto.
+  - (* started by this very event: it must be a Start *)
+    destruct (started_only_by_start _ _ _ _ H Eold Hs) as [f [tid [loop [other [ok ->]]]]].
+    step_inv H; simp_state; rewrite ?upd_same in *; simp_state;
+      repeat match goal with [X : _ && _ = true |- _] => apply andb_prop in X; destruct X end;
+      repeat match goal with [X : (_ =? _) = true |- _] => apply Nat.eqb_eq in X; subst end;
+      try congruence; auto.
+    all: try (destruct f; cbn in *; try discriminate; rewrite ?upd_same; reflexivity).
+Qed.
+
+Lemma home_ok_run tr s : run init tr = Some s -> home_ok s.
+Proof. intros H. eapply (run_inv home_ok home_ok_step); [|exact H]. intros p Hs. discriminate Hs. Qed.
+
+Lemma C11_single_home tr s p q :
+  run init tr = Some s ->
+  started (p_st (pay s p)) = true -> started (p_st (pay s q)) = true ->
+  coroutine (p_flav (pay s p)) = true -> p_flav (pay s q) = p_flav (pay s p) ->
+  p_owner (pay s q) = p_owner (pay s p) ->
+  p_tid (pay s q) = p_tid (pay s p) /\ p_loop (pay s q) = p_loop (pay s p).
+Proof.
+  intros H Sp Sq Cp Ef Eo. pose proof (home_ok_run _ _ H) as Hh.
+  pose proof (Hh p Sp Cp) as Hp. assert (Cq : coroutine (p_flav (pay s q)) = true) by (rewrite Ef; exact Cp).
+  pose proof (Hh q Sq Cq) as Hq. rewrite Ef, Eo, Hp in Hq. injection Hq as -> ->. auto.
+Qed.
+
+(* sections of coroutine payloads of one flavour and runner never overlap *)
+Definition inside_ok (s : rt) : Prop :=
+  NoDup (inside s) /\
+  (forall p, In p (inside s) -> p_st (pay s p) = PRun) /\
+  (forall p q, In p (inside s) -> In q (inside s) -> coroutine (p_flav (pay s p)) = true ->
+               p_owner (pay s q) = p_owner (pay s p) -> p_flav (pay s q) = p_flav (pay s p) -> p = q).
+
+Lemma mem_In x l : mem x l = true <-> In x l.
+Proof.
+  unfold mem. rewrite existsb_exists. split.
+  - intros [y [Hy E]]. apply Nat.eqb_eq in E. subst. exact Hy.
+  - intros H. exists x. split; [exact H|apply Nat.eqb_refl].
+Qed.
+
+Lemma remove1_In x y l : In x (remove1 y l) -> In x l.
+Proof.
+  induction l as [|z l IH]; cbn; [auto|]. destruct (z =? y); [auto|]. intros [->|H]; auto.
+Qed.
+
+Lemma remove1_NoDup y l : NoDup l -> NoDup (remove1 y l) /\ ~ In y (remove1 y l).
+Proof.
+  induction l as [|z l IH]; cbn; intros N; [split; [constructor|auto]|].
+  inversion N as [|? ? Hn N']; subst. destruct (z =? y) eqn:E.
+  - apply Nat.eqb_eq in E. subst. auto.
+  - apply Nat.eqb_neq in E. destruct (IH N') as [A B]. split.
+    + constructor; [|exact A]. intros Hx. apply Hn. eapply remove1_In. exact Hx.
+    + intros [X|X]; [congruence|auto].
+Qed.
+
+Lemma busy_false s r f : busy s r f = false ->
+  forall q, In q (inside s) -> p_owner (pay s q) = r -> p_flav (pay s q) = f -> False.
+Proof.
+  unfold busy. intros Hb q Hin Ho Hf.
+  assert (existsb (fun q0 => (p_owner (pay s q0) =? r) && flav_eqb (p_flav (pay s q0)) f) (inside s) = true).
+  { apply existsb_exists. exists q. split; [exact Hin|]. rewrite Ho, Hf, Nat.eqb_refl. destruct f; reflexivity. }
+  congruence.
+Qed.
+
+Lemma run_perm s e s' q :
+  step s e = Some s' -> p_st (pay s q) = PRun ->
+  p_st (pay s' q) = PRun \/ (exists o, e = Finish q o) \/ e = Cancelled q.
+Proof.
+  intros H Hs. step_inv H; simp_state; auto.
+  all: try (upd_keep q; simp_state; auto; try congruence; eauto; fail).
+  all: try (destruct (flush_st s r q) as [[Hq [_ Hf]]|Hf]; rewrite Hf in *; simp_state; auto; congruence).
+Qed.
+
+Lemma inside_step s e s' :
+  step s e = Some s' ->
+  inside s' = inside s
+  \/ (exists p, e = Enter p /\ inside s' = p :: inside s /\ ~ In p (inside s) /\ p_st (pay s p) = PRun
+                /\ pay s' = pay s
+                /\ (coroutine (p_flav (pay s p)) = true -> busy s (p_owner (pay s p)) (p_flav (pay s p)) = false))
+  \/ (exists p, e = Exit p /\ inside s' = remove1 p (inside s) /\ pay s' = pay s).
+Proof.
+  intros H. step_inv H; simp_state; auto.
+  - right. left. exists p. repeat split; auto.
+    + intros Hin. apply mem_In in Hin. congruence.
+    + intros Hc. rewrite Hc in E1. cbn in E1. apply orb_false_elim in E1. tauto.
+  - right. right. exists p. auto.
+Qed.
+
+Lemma inside_ok_step s e s' : inside_ok s -> step s e = Some s' -> inside_ok s'.
+Proof.
+  intros [N [R U]] H.
+  assert (Hkeep : forall q, In q (inside s) -> (forall o, e <> Finish q o) /\ e <> Cancelled q).
+  { intros q Hin. split.
+    - intros o ->. destruct (inv_Finish _ _ _ _ H) as [_ [_ [_ [Hm _]]]]. apply mem_In in Hin. congruence.
+    - intros ->. step_inv H. apply andb_prop in E0. destruct E0 as [_ E0]. apply negb_true_iff in E0.
+      apply mem_In in Hin. congruence. }
+  assert (Hrun : forall q, In q (inside s) -> p_st (pay s' q) = PRun
+                 /\ p_owner (pay s' q) = p_owner (pay s q) /\ p_flav (pay s' q) = p_flav (pay s q)).
+  { intros q Hin. pose proof (R q Hin) as Hq. destruct (Hkeep q Hin) as [K1 K2].
+    destruct (run_perm _ _ _ _ H Hq) as [X|[[o X]|X]]; [|exfalso; eapply K1; eauto|exfalso; auto].
+    assert (St : started (p_st (pay s q)) = true) by (rewrite Hq; reflexivity).
+    destruct (started_perm _ _ _ _ H St) as [_ [A [B _]]]. auto. }
+  destruct (inside_step _ _ _ H) as [Ei|[[p [-> [Ei [Hn [Hp [Hpay Hbz]]]]]]|[p [-> [Ei Hpay]]]]]; unfold inside_ok; rewrite Ei.
+  - split; [exact N|]. split.
+    + intros q Hin. apply Hrun. exact Hin.
+    + intros a b Ha Hb Hc Ho Hf. destruct (Hrun a Ha) as [_ [A1 A2]]. destruct (Hrun b Hb) as [_ [B1 B2]].
+      rewrite A1, A2, B1, B2 in *. apply U; auto.
+  - split; [constructor; assumption|]. split.
+    + intros q [<-|Hin]; [rewrite Hpay; exact Hp|]. apply Hrun. exact Hin.
+    + rewrite Hpay. intros a b [<-|Ha] [<-|Hb] Hc Ho Hf; auto.
+      * exfalso. eapply busy_false; [apply Hbz; exact Hc|exact Hb|exact Ho|exact Hf].
+      * exfalso. assert (Hcb : coroutine (p_flav (pay s p)) = true) by (rewrite Hf; exact Hc).
+        eapply (busy_false s _ _ (Hbz Hcb) a Ha); congruence.
+  - destruct (remove1_NoDup p _ N) as [N' _]. split; [exact N'|]. rewrite Hpay. split.
+    + intros q Hin. apply R. eapply remove1_In. exact Hin.
+    + intros a b Ha Hb. apply U; eapply remove1_In; eassumption.
+Qed.
+
+Lemma inside_ok_run tr s : run init tr = Some s -> inside_ok s.
+Proof.
+  intros H. eapply (run_inv inside_ok inside_ok_step); [|exact H].
+  split; [constructor|]. split; [intros p []|intros p q []].
+Qed.
+
+(* at no instant are two coroutine payloads of the same flavour (and runner) inside a section *)
+Lemma C11_no_overlap tr s p q :
+  run init tr = Some s -> In p (inside s) -> In q (inside s) ->
+  coroutine (p_flav (pay s p)) = true -> p_owner (pay s q) = p_owner (pay s p) ->
+  p_flav (pay s q) = p_flav (pay s p) -> p = q.
+Proof. intros H. apply (proj2 (proj2 (inside_ok_run _ _ H))). Qed.
+
+(* thread payloads (not executed ones) run on threads of their own, outside their runner's two homes *)
+Definition thr_ok (s : rt) : Prop :=
+  forall p, started (p_st (pay s p)) = true -> p_flav (pay s p) = Thr -> is_exec (p_origin (pay s p)) = false ->
+    In (p_tid (pay s p)) (thr_tids s)
+    /\ home_tid (r_home_aio (run_ s (p_owner (pay s p)))) (p_tid (pay s p)) = false
+    /\ home_tid (r_home_trio (run_ s (p_owner (pay s p)))) (p_tid (pay s p)) = false.
+
+Lemma C11_threads_elsewhere s p tid loop other ok s' :
+  step s (Start p Thr tid loop other ok) = Some s' -> background s p ->
+  loop = 0 /\ ~ In tid (thr_tids s) /\ In tid (thr_tids s')
+  /\ forall r, (p_st (pay s p) = PUnit -> guard s = Some r) -> (p_st (pay s p) <> PUnit -> r = p_owner (pay s p)) ->
+       home_tid (r_home_aio (run_ s r)) tid = false /\ home_tid (r_home_trio (run_ s r)) tid = false.
+Proof.
+  intros H Hb. unfold background in Hb. step_inv H; simp_state; try discriminate;
+    try (rewrite E2 in Hb; cbn in Hb; discriminate Hb);
+    repeat match goal with [X : _ && _ = true |- _] => apply andb_prop in X; destruct X end;
+    repeat match goal with [X : negb _ = true |- _] => apply negb_true_iff in X end;
+    repeat match goal with [X : (_ =? _) = true |- _] => apply Nat.eqb_eq in X; subst end.
+  all: split; [reflexivity|]; split; [intros Hin; apply mem_In in Hin; congruence|]; split; [left; reflexivity|].
+  all: intros r Hu Hn; try (specialize (Hu eq_refl); injection Hu as <-); try (rewrite (Hn ltac:(congruence))); auto.
+Qed.
+
+(* a coroutine home is only ever established on a thread no thread payload runs on *)
+Lemma C11_home_not_a_payload_thread s p f tid loop other ok s' :
+  step s (Start p f tid loop other ok) = Some s' -> coroutine f = true ->
+  ~ In tid (thr_tids s) /\ loop <> 0 /\ other = 0.
+Proof.
+  intros H Hc. step_inv H; simp_state; try congruence;
+    repeat match goal with [X : _ && _ = true |- _] => apply andb_prop in X; destruct X end;
+    repeat match goal with [X : negb _ = true |- _] => apply negb_true_iff in X end;
+    repeat match goal with [X : (_ =? _) = true |- _] => apply Nat.eqb_eq in X; subst
+                         | [X : (_ =? _) = false |- _] => apply Nat.eqb_neq in X end.
+  all: split; [intros Hin; apply mem_In in Hin; congruence|auto].
 Qed.
